@@ -76,6 +76,17 @@ pub fn pick_len(c: &mut Choices, limit: usize, max: usize) -> usize {
     n.clamp(1, max)
 }
 
+/// Item separator for wide / deep shapes: a line break after every 8th item, so that no line grows
+/// with the shape (diagnostic rendering cost grows with the length of the labelled line, and a
+/// slow case is not a verdict).
+fn sep(i: usize) -> &'static str {
+    if i % 8 == 7 {
+        "\n"
+    } else {
+        " "
+    }
+}
+
 fn len_class(n: usize, limit: usize) -> &'static str {
     if n + 2 < limit {
         "below"
@@ -219,10 +230,11 @@ pub fn fragments_times_fields(c: &mut Choices, max_total: usize) -> Adv {
         let mut body = String::new();
         for j in 0..m {
             if inline && j % 2 == 1 {
-                body.push_str("... on Query { a { ");
+                body.push_str("... on Query { a {");
             } else {
-                body.push_str("a { ");
+                body.push_str("a {");
             }
+            body.push_str(sep(j));
         }
         if i + 1 < n {
             body.push_str(&format!("...F{}", i + 1));
@@ -234,6 +246,9 @@ pub fn fragments_times_fields(c: &mut Choices, max_total: usize) -> Adv {
                 body.push_str(" } }");
             } else {
                 body.push_str(" }");
+            }
+            if j % 16 == 15 {
+                body.push('\n');
             }
         }
         exec.push_str(&format!("fragment F{i} on Query {{ {body} }}\n"));
@@ -432,37 +447,34 @@ pub fn input_objects(c: &mut Choices, max_len: usize) -> Adv {
 pub fn nested_values(c: &mut Choices, max_depth: usize) -> Adv {
     let d = pick_len(c, LIMIT_PARSER, max_depth);
     let kind = c.choose(8);
-    let obj = |d: usize, leaf: &str| {
+    let nest = |d: usize, open: &str, leaf: &str, close: &str| {
         let mut s = String::new();
-        for _ in 0..d {
-            s.push_str("{i: ");
+        for i in 0..d {
+            s.push_str(open);
+            if i % 16 == 15 {
+                s.push('\n');
+            }
         }
         s.push_str(leaf);
-        for _ in 0..d {
-            s.push('}');
+        for i in 0..d {
+            s.push_str(close);
+            if i % 32 == 31 {
+                s.push('\n');
+            }
         }
         s
     };
-    let list = |d: usize, leaf: &str| format!("{}{}{}", "[".repeat(d), leaf, "]".repeat(d));
-    let mixed = |d: usize, leaf: &str| {
-        let mut s = String::new();
-        for _ in 0..d {
-            s.push_str("{l: [");
-        }
-        s.push_str(leaf);
-        for _ in 0..d {
-            s.push_str("]}");
-        }
-        s
-    };
+    let obj = |d: usize, leaf: &str| nest(d, "{i: ", leaf, "}");
+    let list = |d: usize, leaf: &str| nest(d, "[", leaf, "]");
+    let mixed = |d: usize, leaf: &str| nest(d, "{l: [", leaf, "]}");
     let (schema, exec, label) = match kind {
         0 => (BASE_SCHEMA.to_string(), format!("{{ b(i: {}) }}\n", obj(d, "{x: 1}")), "object-argument"),
         1 => (BASE_SCHEMA.to_string(), format!("{{ b(l: {}) }}\n", list(d, "{x: 1}")), "list-argument"),
         2 => (BASE_SCHEMA.to_string(), format!("{{ b(i: {}) }}\n", mixed(d, "{x: 1}")), "object-list-argument"),
         3 => (BASE_SCHEMA.to_string(), format!("query($v: In = {}) {{ b(i: $v) }}\n", obj(d, "null")), "variable-default"),
-        4 => (BASE_SCHEMA.to_string(), format!("query($v: {}Int{}) {{ b }}\n", "[".repeat(d), "]".repeat(d)), "variable-list-type"),
+        4 => (BASE_SCHEMA.to_string(), format!("query($v: {}) {{ b }}\n", list(d, "Int")), "variable-list-type"),
         5 => (format!("type Query {{ a(i: A = {}): Int }}\ninput A {{ i: A, x: Int }}\n", obj(d, "{x: 1}")), "{ a }\n".to_string(), "schema-default"),
-        6 => (format!("type Query {{ a: {}Int{} }}\n", "[".repeat(d), "]".repeat(d)), "{ a }\n".to_string(), "field-list-type"),
+        6 => (format!("type Query {{ a: {} }}\n", list(d, "Int")), "{ a }\n".to_string(), "field-list-type"),
         _ => (BASE_SCHEMA.to_string(), format!("query($v: Int) {{ b(l: {}) }}\n", list(d, "$v")), "list-of-variable"),
     };
     Adv {
@@ -529,6 +541,17 @@ pub fn interfaces(c: &mut Choices, max_len: usize) -> Adv {
     }
 }
 
+fn join_members(members: &[String]) -> String {
+    let mut s = String::new();
+    for (i, m) in members.iter().enumerate() {
+        if i > 0 {
+            s.push_str(if i % 8 == 0 { "\n | " } else { " | " });
+        }
+        s.push_str(m);
+    }
+    s
+}
+
 pub fn unions(c: &mut Choices, max_len: usize) -> Adv {
     let n = pick_len(c, LIMIT_RECURSION_STACK, max_len);
     let kind = c.choose(4);
@@ -555,7 +578,7 @@ pub fn unions(c: &mut Choices, max_len: usize) -> Adv {
                 schema.push_str(&format!("type M{i} {{ x: Int }}\n"));
                 members.push(format!("M{i}"));
             }
-            schema.push_str(&format!("union U0 = {}\n", members.join(" | ")));
+            schema.push_str(&format!("union U0 = {}\n", join_members(&members)));
         }
         2 => {
             // duplicate / self members
@@ -563,7 +586,7 @@ pub fn unions(c: &mut Choices, max_len: usize) -> Adv {
             for i in 0..n {
                 members.push(if i % 3 == 0 { "U0".into() } else { "Query".into() });
             }
-            schema.push_str(&format!("union U0 = {}\n", members.join(" | ")));
+            schema.push_str(&format!("union U0 = {}\n", join_members(&members)));
         }
         _ => {
             // members added through n extensions
@@ -605,12 +628,18 @@ pub fn selection_nesting(c: &mut Choices, max_depth: usize) -> Adv {
     };
     let kw = op_keyword(c);
     let mut exec = format!("{kw} {{ ");
-    for _ in 0..d {
+    for i in 0..d {
         exec.push_str(open);
+        if i % 8 == 7 {
+            exec.push('\n');
+        }
     }
     exec.push_str(leaf);
-    for _ in 0..d {
+    for i in 0..d {
         exec.push_str(close);
+        if i % 16 == 15 {
+            exec.push('\n');
+        }
     }
     exec.push_str(" }\n");
     let fields = matches!(kind, 0 | 3 | 4);
@@ -654,8 +683,9 @@ pub fn siblings(c: &mut Choices, max_width: usize) -> Adv {
         0 => {
             label = "same-field";
             exec.push_str("{ ");
-            for _ in 0..k {
-                exec.push_str("s ");
+            for i in 0..k {
+                exec.push_str("s");
+                exec.push_str(sep(i));
             }
             exec.push_str("}\n");
             valid = true;
@@ -664,7 +694,7 @@ pub fn siblings(c: &mut Choices, max_width: usize) -> Adv {
             label = "distinct-aliases";
             exec.push_str("{ ");
             for i in 0..k {
-                exec.push_str(&format!("x{i}: s "));
+                exec.push_str(&format!("x{i}: s{}", sep(i)));
             }
             exec.push_str("}\n");
             valid = true;
@@ -673,7 +703,8 @@ pub fn siblings(c: &mut Choices, max_width: usize) -> Adv {
             label = "conflicting-aliases";
             exec.push_str("{ ");
             for i in 0..k {
-                exec.push_str(if i % 2 == 0 { "x: s " } else { "x: id " });
+                exec.push_str(if i % 2 == 0 { "x: s" } else { "x: id" });
+                exec.push_str(sep(i));
             }
             exec.push_str("}\n");
         }
@@ -681,7 +712,7 @@ pub fn siblings(c: &mut Choices, max_width: usize) -> Adv {
             label = "duplicate-arguments";
             exec.push_str("{ b(");
             for i in 0..k {
-                exec.push_str(&format!("x: {i}, "));
+                exec.push_str(&format!("x: {i},{}", sep(i)));
             }
             exec.push_str(") }\n");
         }
@@ -689,7 +720,7 @@ pub fn siblings(c: &mut Choices, max_width: usize) -> Adv {
             label = "unused-variables";
             exec.push_str("query Q(");
             for i in 0..k {
-                exec.push_str(&format!("$v{i}: Int "));
+                exec.push_str(&format!("$v{i}: Int{}", sep(i)));
             }
             exec.push_str(") { s }\n");
         }
@@ -697,15 +728,18 @@ pub fn siblings(c: &mut Choices, max_width: usize) -> Adv {
             label = "duplicate-variables";
             exec.push_str("query Q(");
             for i in 0..k {
-                exec.push_str(&format!("$v{}: Int ", i % 3));
+                exec.push_str(&format!("$v{}: Int{}", i % 3, sep(i)));
             }
             exec.push_str(") { b(x: $v0) }\n");
         }
         6 => {
             label = "repeated-directive";
             exec.push_str("{ s");
-            for _ in 0..k {
+            for i in 0..k {
                 exec.push_str(" @skip(if: true)");
+                if i % 8 == 7 {
+                    exec.push('\n');
+                }
             }
             exec.push_str(" }\n");
         }
@@ -719,7 +753,7 @@ pub fn siblings(c: &mut Choices, max_width: usize) -> Adv {
             label = "duplicate-field-definitions";
             schema.push_str("type W { ");
             for i in 0..k {
-                schema.push_str(&format!("f{}: Int ", i % 5));
+                schema.push_str(&format!("f{}: Int{}", i % 5, sep(i)));
             }
             schema.push_str("}\n");
         }
@@ -727,7 +761,7 @@ pub fn siblings(c: &mut Choices, max_width: usize) -> Adv {
             label = "enum-values";
             schema.push_str("enum E { ");
             for i in 0..k {
-                schema.push_str(&format!("V{} ", if c.bool(30) { i % 3 } else { i }));
+                schema.push_str(&format!("V{}{}", if c.bool(30) { i % 3 } else { i }, sep(i)));
             }
             schema.push_str("}\n");
         }
@@ -748,15 +782,16 @@ pub fn siblings(c: &mut Choices, max_width: usize) -> Adv {
             label = "undefined-fields";
             exec.push_str("{ ");
             for i in 0..k {
-                exec.push_str(&format!("nope{i} "));
+                exec.push_str(&format!("nope{i}{}", sep(i)));
             }
             exec.push_str("}\n");
         }
         13 => {
             label = "many-spreads";
             exec.push_str("fragment G on Query { s }\n{ ");
-            for _ in 0..k {
-                exec.push_str("...G ");
+            for i in 0..k {
+                exec.push_str("...G");
+                exec.push_str(sep(i));
             }
             exec.push_str("}\n");
             valid = true;
@@ -772,7 +807,7 @@ pub fn siblings(c: &mut Choices, max_width: usize) -> Adv {
             label = "field-arguments-definitions";
             schema.push_str("type W { f(");
             for i in 0..k {
-                schema.push_str(&format!("p{}: Int ", i % 11));
+                schema.push_str(&format!("p{}: Int{}", i % 11, sep(i)));
             }
             schema.push_str("): Int }\n");
         }
@@ -781,6 +816,9 @@ pub fn siblings(c: &mut Choices, max_width: usize) -> Adv {
             schema.push_str("type W implements ");
             for i in 0..k {
                 schema.push_str(if i == 0 { "N" } else if i % 2 == 0 { " & N" } else { " & Missing" });
+                if i % 8 == 7 {
+                    schema.push('\n');
+                }
             }
             schema.push_str(" { a: Query }\n");
         }
@@ -836,15 +874,22 @@ pub fn decorate(c: &mut Choices, text: &str) -> String {
         2 => text.replace('\n', "\r\n"),
         3 => text.replace('\n', "\r"),
         4 => text.replace('\n', " # 🚀é\n").replace(' ', "\t"),
-        _ => text.replace('\n', " "),
+        // everything on one line: only for short texts (rendering cost grows with line length)
+        _ => {
+            if text.len() <= 1500 {
+                text.replace('\n', " ")
+            } else {
+                text.to_string()
+            }
+        }
     }
 }
 
 pub fn adversary(c: &mut Choices, thorough: bool) -> Adv {
     let chain_max = if thorough { 1200 } else { 600 };
     let wide_max = if thorough { 12_000 } else { 3_000 };
-    let total_depth = if thorough { 48_000 } else { 24_000 };
-    match c.weighted(&[16, 8, 3, 14, 6, 12, 8, 8, 5, 9, 9, 2]) {
+    let total_depth = if thorough { 48_000 } else { 10_000 };
+    match c.weighted(&[17, 6, 3, 14, 6, 12, 8, 8, 5, 10, 9, 2]) {
         0 => fragments(c, chain_max),
         1 => fragments_times_fields(c, total_depth),
         2 => fragment_ladder(c),
